@@ -118,6 +118,16 @@ class FortranExpressionMapper(StringifyMapper):
                     self.rec(expr.right, PREC_COMPARISON)),
                 enclosing_prec, PREC_COMPARISON)
 
+    def map_power(self, expr, enclosing_prec):
+        # In Fortran, "**" is right-associative: "a**b**c" is a**(b**c). So a
+        # base that is itself a power needs parentheses.
+        from pymbolic.mapper.stringifier import PREC_POWER
+        return self.parenthesize_if_needed(
+                self.format("%s**%s",
+                    self.rec(expr.base, PREC_POWER + 1),
+                    self.rec(expr.exponent, PREC_POWER)),
+                enclosing_prec, PREC_POWER)
+
     def map_logical_not(self, expr, enclosing_prec):
         from pymbolic.mapper.stringifier import PREC_UNARY
         return self.parenthesize_if_needed(
